@@ -14,6 +14,7 @@ mod c15;
 mod c16;
 mod c18;
 mod c20;
+mod c34;
 mod c35;
 mod nodes;
 mod c37;
@@ -42,6 +43,7 @@ fn main() {
         "c16" => c16::run(quick, seed),
         "c18" => c18::run(quick, seed, &work),
         "c20" => c20::run(quick, seed, &work),
+        "c34" => c34::run(quick, seed, &work),
         "c35" => c35::run(quick, seed, &work),
         "c37" => c37::run(quick, seed),
         "c38" => c38::run(quick, seed),
